@@ -98,3 +98,49 @@ Check C05_examples :
   (match deser 50 c0 false (TTuple [TInt true 32; TInt true 32]) (replay_new (events_of (sq [pl [49]; pl [50]; pl [51]]))) with
    | DOk _ (SReplay _ (_ :: _) _) => true | _ => false end) = true.
 Print Assumptions C05_examples.
+
+(* A complex mapping key (recorded, then replayed through the key type) must be consumed entirely by the key
+   type: whatever is left of the recorded node is an error of the mapping (F59, fixed). *)
+Theorem C05_map_key_surplus_is_error : forall f c kt vt ow m x pairs fg kevents kemn kloc m' x' kv xr e xr',
+  ma_next_key f c m x = KKey kevents kemn kloc m' x' ->
+  deser f c kemn kt (replay_new kevents) = DOk kv xr ->
+  src_peek xr = NSome e xr' ->
+  map_loop (S f) c (MMap kt vt ow) m x pairs fg = DErr (Err E_Unexpected (ev_loc e)).
+Proof. exact map_key_surplus_is_error. Qed.
+Check C05_map_key_surplus_is_error : forall f c kt vt ow m x pairs fg kevents kemn kloc m' x' kv xr e xr',
+  ma_next_key f c m x = KKey kevents kemn kloc m' x' ->
+  deser f c kemn kt (replay_new kevents) = DOk kv xr ->
+  src_peek xr = NSome e xr' ->
+  map_loop (S f) c (MMap kt vt ow) m x pairs fg = DErr (Err E_Unexpected (ev_loc e)).
+Print Assumptions C05_map_key_surplus_is_error.
+
+Theorem C05_struct_key_surplus_is_error : forall f c fields deny m x pairs fg kevents kemn kloc m' x' name xr e xr',
+  ma_next_key f c m x = KKey kevents kemn kloc m' x' ->
+  deser f c kemn TStr (replay_new kevents) = DOk (VStr name) xr ->
+  src_peek xr = NSome e xr' ->
+  map_loop (S f) c (MStruct fields deny) m x pairs fg = DErr (Err E_Unexpected (ev_loc e)).
+Proof. exact struct_key_surplus_is_error. Qed.
+Check C05_struct_key_surplus_is_error : forall f c fields deny m x pairs fg kevents kemn kloc m' x' name xr e xr',
+  ma_next_key f c m x = KKey kevents kemn kloc m' x' ->
+  deser f c kemn TStr (replay_new kevents) = DOk (VStr name) xr ->
+  src_peek xr = NSome e xr' ->
+  map_loop (S f) c (MStruct fields deny) m x pairs fg = DErr (Err E_Unexpected (ev_loc e)).
+Print Assumptions C05_struct_key_surplus_is_error.
+
+(* {[1, 2, 3]: 5} as Map<(i32, i32), i32> is an error; {[1, 2]: 5} reads {(1, 2): 5} *)
+Example C05_key_examples :
+  (match deser 80 c0 false (TMap (TTuple [TInt true 32; TInt true 32]) (TInt true 32))
+           (replay_new (events_of (NdMap 0 lx [(sq [pl [49]; pl [50]; pl [51]], pl [53])] lx))) with
+   | DErr (Err E_Unexpected _) => true | _ => false end) = true /\
+  (match deser 80 c0 false (TMap (TTuple [TInt true 32; TInt true 32]) (TInt true 32))
+           (replay_new (events_of (NdMap 0 lx [(sq [pl [49]; pl [50]], pl [53])] lx))) with
+   | DOk (VMap [(VSeq [VInt 1; VInt 2], VInt 5)]) _ => true | _ => false end) = true.
+Proof. vm_compute. split; reflexivity. Qed.
+Check C05_key_examples :
+  (match deser 80 c0 false (TMap (TTuple [TInt true 32; TInt true 32]) (TInt true 32))
+           (replay_new (events_of (NdMap 0 lx [(sq [pl [49]; pl [50]; pl [51]], pl [53])] lx))) with
+   | DErr (Err E_Unexpected _) => true | _ => false end) = true /\
+  (match deser 80 c0 false (TMap (TTuple [TInt true 32; TInt true 32]) (TInt true 32))
+           (replay_new (events_of (NdMap 0 lx [(sq [pl [49]; pl [50]], pl [53])] lx))) with
+   | DOk (VMap [(VSeq [VInt 1; VInt 2], VInt 5)]) _ => true | _ => false end) = true.
+Print Assumptions C05_key_examples.
